@@ -734,10 +734,8 @@ class kMinPathError(pathmodel.AbstractPathModelDAG):
         solution_slacks = self._solution["slacks"]
         if len(self.path_length_factors) > 0:
             solution_slacks = self._solution["scaled_slacks"]
-        for path in solution_paths:
-            if len(path) == 1:
-                utils.logger.error(f"{__name__}: Encountered a solution path with length 1, which is not allowed.")
-                raise ValueError("Solution path with length 1 encountered.")
+        # A solution path with a single node (additional start = additional end) has no edges and
+        # contributes to no edge below; it is a legal path of the augmented graph.
         solution_paths_of_edges = [
             [(path[i], path[i + 1]) for i in range(len(path) - 1)]
             for path in solution_paths
@@ -758,7 +756,7 @@ class kMinPathError(pathmodel.AbstractPathModelDAG):
         for u, v, data in self.G.edges(data=True):
             if self.flow_attr in data and (u,v) not in self.edges_to_ignore:
                 if (
-                    abs(data[self.flow_attr] - weight_from_paths[(u, v)])
+                    abs(data[self.flow_attr] - weight_from_paths[(u, v)]) * self.edge_error_scaling.get((u, v), 1)
                     > tolerance * num_paths_on_edges[(u, v)] + slack_from_paths[(u, v)]
                 ):
                     utils.logger.debug(f"{__name__}: Solution: {self._solution}")
